@@ -395,7 +395,7 @@ where
     // The number of empty lines and bytes that were already removed from the
     // buffer are stored in `self.position`.
     fn first_byte(&mut self) -> Result<Option<(usize, usize, u8)>, Error> {
-        while fill_buf(&mut self.buf_reader)? > 0 {
+        while self.fill_buf()? > 0 {
             let mut line_num = 0;
             let mut pos = 0;
             let mut last_line_len = 0;
@@ -422,6 +422,23 @@ where
     #[inline]
     fn get_buf(&self) -> &[u8] {
         self.buf_reader.buffer()
+    }
+
+    // Fills the buffer. If an I/O error occurs, the buffer may be incompletely
+    // filled, which would later be mistaken for the end of the input.
+    // Therefore, the buffer contents are discarded, and nothing more is
+    // returned until seek() is called successfully.
+    fn fill_buf(&mut self) -> Result<usize, Error> {
+        fill_buf(&mut self.buf_reader).map_err(|e| {
+            self.discard_buf();
+            Error::from(e)
+        })
+    }
+
+    fn discard_buf(&mut self) {
+        let n = self.get_buf().len();
+        self.buf_reader.consume(n);
+        self.state = State::Finished;
     }
 
     // Sets starting points for next position
@@ -498,7 +515,7 @@ where
             }
 
             // fill up remaining buffer
-            fill_buf(&mut self.buf_reader)?;
+            self.fill_buf()?;
 
             if self.search()? {
                 return Ok(true);
@@ -658,10 +675,14 @@ where
             return Ok(());
         }
 
-        self.buf_reader.seek(io::SeekFrom::Start(to.byte))?;
-        fill_buf(&mut self.buf_reader)?;
+        // The buffer is discarded. If seeking or reading fails,
+        // nothing is returned until the next successful seek().
+        self.discard_buf();
         self.search_pos = 0;
         self.buf_pos.reset(0);
+        self.buf_reader.seek(io::SeekFrom::Start(to.byte))?;
+        self.fill_buf()?;
+        self.state = State::Positioned;
         Ok(())
     }
 }
